@@ -1,5 +1,6 @@
 // C05: determinism of rendering.
-//   det <opts> <mdhex> [syn]  ->  ok <fingerprint> | ok DIFF <which>
+//   det <opts> <mdhex> [syn|css]  ->  ok <fingerprint> | ok DIFF <which>
+// (`css`: the syntect adapter in CSS-class mode, which writes the <pre> tag through another path)
 // Renders html / xml / cm of the same parsed tree three times in this thread, then parses and
 // renders the same input on 8 threads that share ONE Options value (and one SyntectAdapter when
 // `syn` is given), and compares every output byte for byte with the first.  The fingerprint
@@ -35,8 +36,13 @@ pub fn dispatch(op: &str, a: &[String]) -> Option<String> {
     }
     let o = opts::decode(&a[0]);
     let md = String::from_utf8(unhex(&a[1])).expect("utf-8");
-    let syn = a.len() > 2 && a[2] == "syn";
-    let adapter = SyntectAdapterBuilder::new().theme("base16-ocean.dark").build();
+    let css = a.len() > 2 && a[2] == "css";
+    let syn = css || (a.len() > 2 && a[2] == "syn");
+    let adapter = if css {
+        SyntectAdapterBuilder::new().css().build()
+    } else {
+        SyntectAdapterBuilder::new().theme("base16-ocean.dark").build()
+    };
     let mut plugins = Plugins::default();
     if syn {
         plugins.render.codefence_syntax_highlighter = Some(&adapter);
@@ -61,6 +67,19 @@ pub fn dispatch(op: &str, a: &[String]) -> Option<String> {
             }
             if c != first[2] {
                 return Some(format!("ok DIFF cm-repeat-{}", round));
+            }
+        }
+    }
+    // history: other documents rendered on this thread in between must not change the result
+    // ("no output byte depends on earlier documents")
+    for other in ["plain words only\n", "\\_\\_hi \\* x\n", "```rust\nfn x() {}\n```\n\n    indented\n", "# h\n\n# h\n\nx[^a]\n\n[^a]: y\n", "| a |\n|---|\n| b |\n"] {
+        let _ = render_all(other, &o, &plugins);
+    }
+    {
+        let again = render_all(&md, &o, &plugins);
+        for (i, name) in ["html", "xml", "cm"].iter().enumerate() {
+            if again[i] != first[i] {
+                return Some(format!("ok DIFF {}-after-other-documents", name));
             }
         }
     }
